@@ -27,7 +27,8 @@ def main():
     sid = f'{prop}-{rnd}{x}'
     wt = tempfile.mkdtemp(prefix=f'vr-{sid}-')
     os.rmdir(wt)
-    rc, out = sh(f'git -C /repo worktree add -q {wt} HEAD')
+    BASE = sys.argv[sys.argv.index('--base') + 1] if '--base' in sys.argv else 'HEAD'
+    rc, out = sh(f'git -C /repo worktree add -q {wt} {BASE}')
     assert rc == 0, out
     meta = {'id': sid, 'round': int(rnd), 'property': prop, 'kind': 'behaviour-preserving refactoring',
             'source': 'independent sub-agent given only the property text and a scratch worktree'}
